@@ -215,3 +215,62 @@ Theorem C08_reader_independent_any_input_refuted :
     parse bytes crlf_line 65536 (fuel_for body) (Some ctv) (-1) body.
 Proof. exact reader_independent_any_input_refuted. Qed.
 Print Assumptions C08_reader_independent_any_input_refuted.
+
+(* ---- translator tie: the hand model equals the definitions generated from
+   the current poorwsgi/fieldstorage.py (harness/py2v_multipart.py ->
+   gen/MultipartGen.v) over the Python semantics of lib/Py.v and
+   lib/PyMultipart.v *)
+Require Import PW.lib.Py PW.lib.PyMultipart PW.gen.MultipartGen
+  PW.proofs.MultipartGenEq.
+
+(* FieldStorageParser._write on the object read_lines created (the parser's
+   own BytesIO/StringIO, the temporary file it spilled to, or the product of
+   the file factory) = the file model [mwrite]: in-memory test with the
+   `not (self.filename and self.file_callback)` guard, BUFSIZE spill through
+   make_file() with the copied getvalue(), bytes or decoded write *)
+Theorem C08_generated__write_is_model :
+  forall (D : list Z -> list Z) (fn : option (list Z)) (cb enc errs : pv)
+         (st : fstate) (p : bytes),
+    wf fn cb st ->
+    gen_write D (inj_name fn) cb enc errs (PBytes p) (inj_file D fn enc st)
+    = Py.Ok (inj_file D fn enc (mwrite D fn st p)).
+Proof. exact gen_write_eq. Qed.
+Print Assumptions C08_generated__write_is_model.
+
+(* ... and the file model is what the model's field says: after writing the
+   pieces of a field one by one the file holds exactly f_pieces and is still
+   in memory exactly when in_memory (spilled) says so *)
+Theorem C08_write_model_is_field :
+  forall (fn : option (list Z)) (cb : pv) (f : field),
+    f_filename f = fn ->
+    let st := fold_left (mwrite utf8_decode fn) (f_pieces f) (start fn cb) in
+    contents st = f_pieces f /\ in_mem st = in_memory (Py.truthy cb) f.
+Proof. exact write_fold_is_model. Qed.
+Print Assumptions C08_write_model_is_field.
+
+(* FieldStorageParser.read_lines_to_outerboundary (the whole while loop) =
+   the model's rlob, for every reader [rl], input state, limit, outer
+   boundary, configuration and fuel (OutOfFuel on both sides for the same
+   fuel); the returned file is the one _write leaves after the model's
+   pieces, self.done and self.bytes_read are the model's *)
+Theorem C08_generated_read_lines_to_outerboundary_is_model :
+  forall (St : Type) (rl : Z -> St -> bytes * St) (D : list Z -> list Z)
+         (fn : option (list Z)) (cb enc errs : pv) (B0 : Z) (ob : bytes)
+         (limit : option Z) (fuel : nat) (s : St) (st : fstate),
+    wf fn cb st ->
+    gen_read_lines_to_outerboundary St rl D (inj_lim limit) (PBytes ob) s
+      (PInt B0) (PInt 0) (inj_name fn) cb enc errs (inj_file D fn enc st) fuel
+    = inj_res St D fn enc B0
+        (rlob St rl 65536 fuel (dashb ob) (dashb ob ++ [45; 45]) limit
+              [] [] true 0 s) st.
+Proof. exact gen_read_lines_to_outerboundary_eq. Qed.
+Print Assumptions C08_generated_read_lines_to_outerboundary_is_model.
+
+(* valid_boundary on bytes (isinstance dispatch, the compiled pattern
+   "^[ -~]{0,200}[!-~]$" parsed from the source, .match, bool) = the
+   model's valid_boundary, including "$" matching before a final newline *)
+Theorem C08_generated_valid_boundary_is_model :
+  forall b : bytes,
+    gen_valid_boundary (PBytes b) = Py.Ok (PBool (valid_boundary b)).
+Proof. exact gen_valid_boundary_eq. Qed.
+Print Assumptions C08_generated_valid_boundary_is_model.
